@@ -5,6 +5,7 @@ directories of a key set are usable side by side (`keysSeparable`), and
 `dest_injective` across ALL forks of such a call.
 -/
 import Martian.PostProcess
+import Martian.PostProcessDefs
 import Proofs.PostProcess
 import Proofs.PostProcessLeaves
 import Proofs.PostProcessDests
@@ -57,11 +58,6 @@ theorem incomp_under {a b d1 d2 : Path} (h : Incomp a b) (h1 : Under a d1) (h2 :
 theorem incompB_iff {a b : Path} : incompB a b = true ↔ Incomp a b := by
   simp [incompB, Incomp]
 
-/-- propositional reading of `keysSeparable` -/
-def KeysSeparable (outs : Path) (keys : List String) : Prop :=
-  (∀ k ∈ keys, Under outs (joinKey outs k)) ∧
-    keys.Pairwise (fun a b => Incomp (joinKey outs a) (joinKey outs b))
-
 theorem keysSeparable_iff (outs : Path) (keys : List String) :
     keysSeparable outs keys = true ↔ KeysSeparable outs keys := by
   induction keys with
@@ -92,11 +88,6 @@ theorem legal_keys_separable (outs : Path) (keys : List String) (hnd : keys.Nodu
       exact incomp_of_siblings hne (Under.refl _) (Under.refl _)
 
 /-! ## all leaves of all forks -/
-
-/-- the `moveOutFile` calls of `postMap`, fork after fork -/
-def leavesMap (params : List (String × String × Ty)) (outs : Path) : List (String × J) → List Leaf
-  | [] => []
-  | (k, x) :: r => leavesRec params (fieldsOf x) (joinKey outs k) ++ leavesMap params outs r
 
 theorem mem_leavesMap {params : List (String × String × Ty)} {outs : Path} {kvs : List (String × J)} {l : Leaf}
     (h : l ∈ leavesMap params outs kvs) :
@@ -148,15 +139,6 @@ theorem leavesMap_under (params : List (String × String × Ty)) (outs : Path) (
 
 /-! ## refinement: the file-system effect of `postMap` -/
 
-/-- fork after fork: create the fork's directory (when the signature has a
-file-typed output), then the fold of `moveOutFile` over the fork's leaves -/
-def runForks (ps : Path) (params : List (String × String × Ty)) (outs : Path) : List (String × J) → FS → FS
-  | [], fs => fs
-  | (k, x) :: r, fs =>
-    runForks ps params outs r
-      (runLeaves ps (leavesRec params (fieldsOf x) (joinKey outs k))
-        (if hasFileMs params then mkdirAll fs (joinKey outs k) else fs))
-
 theorem postMap_run (ps : Path) (params : List (String × String × Ty)) (outs : Path) (kvs : List (String × J))
     (fs : FS) : (postMap true ps params outs kvs fs).2 = runForks ps params outs kvs fs := by
   induction kvs generalizing fs with
@@ -171,19 +153,5 @@ theorem postMap_run (ps : Path) (params : List (String × String × Ty)) (outs :
     cases x <;> rfl
 
 /-! ## helpers for the concrete witnesses -/
-
-/-- the string recorded for field `k` of a fork's record -/
-def recStr (j : J) (k : String) : Option String :=
-  match j with
-  | .obj kvs => (lookupLast kvs k).bind J.strVal
-  | _ => none
-
-/-- two forks, each with one file `f` in its own stage directory -/
-def exFS2 : FS :=
-  { get := fun q => if q = ["ps", "MK", "fork0", "files", "f"] then some (.file 1)
-      else if q = ["ps", "MK", "fork1", "files", "f"] then some (.file 2)
-      else if q = ["ps"] ∨ q = ["ps", "MK"] ∨ q = ["ps", "MK", "fork0"] ∨ q = ["ps", "MK", "fork1"] ∨
-        q = ["ps", "MK", "fork0", "files"] ∨ q = ["ps", "MK", "fork1", "files"] then some .dir else none
-    dom := [] }
 
 end Martian.PostProcess
